@@ -251,12 +251,14 @@ impl Property for P {
                     for tgt in TGT { v.push(range(cast, src, tgt, src.range().0, 256)); }
                 }
             }
-            // exhaustive: all 16-bit sources, in batches of 256 consecutive values
+            // exhaustive: all 16-bit sources, in ranges of consecutive values (the run-length encoded
+            // output of a range is short unless the results are floats)
             for cast in [false, true] {
                 for src in [Int16, UInt16] {
                     for tgt in TGT {
                         let (lo, _) = src.range();
-                        for b in 0..256 { v.push(range(cast, src, tgt, lo + 256 * b, 256)); }
+                        let size: i128 = if tgt.is_float() { 512 } else { 8192 };
+                        for b in 0..(65536 / size) { v.push(range(cast, src, tgt, lo + size * b, size as u32)); }
                     }
                 }
             }
